@@ -3,7 +3,9 @@
 the four record types in use through the real functions, whole-file comparison with the model after every step,
 frame predicates on the implementation's own output, torn tails at every byte length; window reads of thousands of
 records on generated files of 5 000 / 70 000 records (index lists against the model, contents by digest); histories
-in one process during which the OS refuses some writes (RLIMIT_FSIZE = 0: EFBIG), followed by further operations, whole-file comparison after every step."""
+in one process during which the OS refuses some writes (RLIMIT_FSIZE = 0: EFBIG), followed by further operations, whole-file comparison after every step;
+sparse files (a few KiB on disk) with the addressed record at byte offsets around 2^31, 2^32, 2^33 and up to 2^40: append / substitute / delete-mark / count
+(+ GetRecords, ModifyDirLite) through the real functions, the whole file listed afterwards from its data extents and compared with the sparse model and a reference."""
 import hashlib, os, struct, sys
 sys.path.insert(0, os.path.join(os.path.dirname(os.path.abspath(__file__)), "..", "lib"))
 import vf
@@ -486,14 +488,141 @@ def main():
     c.cov["exhaustive_parts"].append("every triple (operation during which the OS refuses writes: append/substitute/delete-mark, ModifyDirLite for .DIR) x (on the file itself / on another file) x (next operation of the same process) for all four strides, whole file compared after every step")
     c.sample({"op": "history with refused writes", "stride": hists[-1][0], "steps": [("refused " if q[1] else "") + KIND[q[0]] for q in hists[-1][2]]})
 
+    # ------------------------------------------------------------ offsets at and beyond 2^31 / 2^32 bytes: sparse files
+    # The file is (size, {slot: bytes}); the driver creates it sparse (a few KiB on disk), runs the real function and lists
+    # the whole file again from the data extents the file system reports. Reference below: a write of bs at slot q replaces
+    # the first len(bs) bytes of slot q and nothing else; the size becomes max(size, q*sz+len(bs)).
+    def trim(b):
+        b = list(b)
+        while b and b[-1] == 0:
+            b.pop()
+        return b
+
+    def sp_line(sz, kind, idx, n, desc, mtime, L, data, marks):
+        parts = ["15", "%d %d %d %d %d %d" % (sz, kind, idx, n, desc, mtime), str(L), toks(data)]
+        for q in sorted(marks):
+            parts += [str(q), toks(marks[q])]
+        return "|".join(parts)
+
+    def sp_listing(L, marks):
+        live = [(q, trim(marks[q])) for q in sorted(marks)]
+        live = [(q, v) for q, v in live if v]
+        return "%d %d" % (L, len(live)) + "".join(" %d %d %s" % (q, len(v), toks(v)) for q, v in live)
+
+    def sp_write(sz, L, marks, q, bs):
+        m = dict(marks)
+        old = list(m.get(q, []))
+        m[q] = list(bs) + old[len(bs):]
+        return max(L, q * sz + len(bs)), m
+
+    def sp_expect(sz, kind, idx, n, desc, mtime, L, data, marks):
+        cnt = L // sz
+        if kind == 1:
+            L2, m2 = sp_write(sz, L, marks, cnt, data)
+            return "0 %d %s" % (cnt + 1, sp_listing(L2, m2))
+        if kind in (2, 3):
+            if idx < 0:
+                return "3 2 " + sp_listing(L, marks)
+            L2, m2 = sp_write(sz, L, marks, idx, data)
+            return "0 0 " + sp_listing(L2, m2)
+        if kind == 4:
+            cs = lambda b: bytes(b).split(b"\0")[0]
+            r = list(marks.get(idx - 1, [])) + [0] * sz
+            r = r[:sz]
+            if L < sz * idx or idx < 1 or cs(r[:28]) != cs(data):
+                return "3 %d %s" % (1 if (L < sz * idx or idx >= 1) else 2, sp_listing(L, marks))
+            if mtime > 0:
+                r[28:32] = list(struct.pack("<I", mtime))
+            L2, m2 = sp_write(sz, L, marks, idx - 1, r)
+            return "0 0 " + sp_listing(L2, m2)
+        if kind == 5:
+            if idx < 1:
+                return "3 1"
+            idxs, i = [], idx
+            while len(idxs) < n and 1 <= i <= cnt:
+                idxs.append(i); i += -1 if desc else 1
+            out = ["0", str(len(idxs))]
+            for i in idxs:
+                out += [str(i)] + [str(x) for x in (list(marks.get(i - 1, [])) + [0] * sz)[:sz]]
+            return " ".join(out)
+        return "0 %d" % cnt
+
+    SPK = {1: "append", 2: "substitute", 3: "delete", 4: "modify", 5: "read", 6: "count"}
+    sp_cases = []                                                   # (line, expected, key, description)
+    for sz in STRIDES:
+        qs = set()
+        for T in (1 << 31, 1 << 32, 1 << 33):
+            q0 = -(-T // sz)                                        # first slot whose offset is >= T
+            qs.update([q0 - 1, q0, q0 + 1, q0 + rng.randrange(2, 1 << 20)])
+        qs.update([1 << 23, 1 << 24, (1 << 24) + 1, 1 << 25, (1 << 31) - 8, rng.randrange(1 << 24, (1 << 31) - 8)])
+        for q in sorted(qs):
+            off = q * sz
+            cls = "below-2^31" if off < (1 << 31) else "2^31..2^32" if off < (1 << 32) else ">=2^32"
+            near = sorted(set(x for x in (0, 1, (off % (1 << 32)) // sz, (off % (1 << 31)) // sz, ((off + sz) % (1 << 32)) // sz, q - 1, q, q + 1, q + 2) if 0 <= x <= q + 2))
+
+            def marks_for(slots_, last):
+                m = {}
+                for x in slots_:
+                    if x <= last:
+                        m[x] = rand_rec(rng, sz)
+                        if sz == 128:
+                            m[x][:28] = rand_name(rng)
+                return m
+            big_L = (q + 3) * sz + rng.choice([0, 0, rng.randrange(1, sz)])
+            big = marks_for(near, q + 2)
+            small_L = 3 * sz
+            small = marks_for([0, 1, 2], 2)
+            rec = rand_rec(rng, sz)
+            todo = [(2, q, 0, 0, 0, big_L, rec, big, "inside a file of %d records" % (big_L // sz)),
+                    (2, q, 0, 0, 0, small_L, rec, small, "beyond the end of a 3-record file"),
+                    (3, q, 0, 0, 0, big_L, tag, big, "inside a file of %d records" % (big_L // sz)),
+                    (3, q, 0, 0, 0, small_L, tag, small, "beyond the end of a 3-record file"),
+                    (6, 0, 0, 0, 0, big_L, [], big, "file of %d records" % (big_L // sz))]
+            # append: the file ends at slot q (aligned or with a torn tail): the record must land at slot q, index q+1
+            aL = q * sz + rng.choice([0, rng.randrange(1, sz)])
+            am = marks_for([x for x in near if x < q], q - 1)
+            if aL % sz:
+                am[q] = rand_rec(rng, sz)[:aL % sz]
+            todo.append((1, 0, 0, 0, 0, aL, rec, am, "file of %d records%s" % (q, " and a torn tail" if aL % sz else "")))
+            if sz == 128:
+                for desc in (0, 1):
+                    todo.append((5, q + 1 if not desc else q + 2, 3, desc, 0, big_L, [], big, "file of %d records" % (big_L // sz)))
+                todo.append((5, q + 3, 5, 0, 0, big_L, [], big, "last record of %d" % (big_L // sz)))
+                mt = rng.randrange(1, 2 ** 31)
+                todo.append((4, q + 1, 0, 0, mt, big_L, big[q][:28], big, "stored name"))
+                todo.append((4, q + 1, 0, 0, mt, big_L, rand_name(rng), big, "stale name"))
+                todo.append((4, q + 4, 0, 0, mt, big_L, big[q][:28], big, "index beyond the file"))
+            for (kind, idx, n, desc, mtime, L, data, marks, what) in todo:
+                line = sp_line(sz, kind, idx, n, desc, mtime, L, data, marks)
+                want = sp_expect(sz, kind, idx, n, desc, mtime, L, data, marks)
+                sp_cases.append((line, want, "large-offset:%s:%s" % (SPK[kind], cls),
+                                 "%s (%s, stride %d) at record index %d = byte offset %d (%s), %s" % (SPK[kind], STRIDES[sz], sz, idx if kind in (2, 3, 4, 5) else L // sz, (idx if kind in (2, 3) else idx - 1 if kind in (4, 5) else L // sz) * sz, cls, what),
+                                 (sz, SPK[kind], cls, what.split(" ")[0], L % sz != 0)))
+    spl = [x[0] for x in sp_cases]
+    spo = vf.run_impl(impl, "C05", spl, deadline_ms=120000)
+    if model:
+        vf.correspond(c, "sparse files: offsets at and beyond 2^31 / 2^32 bytes", spl, spo, vf.run_model(model, spl))
+    c.count(len(spl), "sparse large-offset cases")
+    for (line, want, key, desc_, nt), o in zip(sp_cases, spo):
+        if " ".join(o.split()) != want:
+            t, w = o.split(), want.split()
+            c.violation(key, "%s: the whole file afterwards (size, every slot holding a non-zero byte) or the result is not the expected one: got status/result %s, size %s, %s live slots; expected %s, size %s, %s live slots - only the addressed record may change, at byte offset index*stride computed in 64 bits"
+                        % (desc_, t[:2], t[2] if len(t) > 2 else "-", t[3] if len(t) > 3 else "-", w[:2], w[2] if len(w) > 2 else "-", w[3] if len(w) > 3 else "-"),
+                        {"cases": [line], "expected": want[:400], "got": o[:400]})
+        c.nontrivial(("sparse",) + nt)
+    c.cov["exhaustive_parts"].append("for each of the four strides: substitute / delete-mark / append / count (+ GetRecords asc/desc and ModifyDirLite for .DIR) at the record whose byte offset is the last below / first at / first above 2^31, 2^32 and 2^33, at index 2^23, 2^24, 2^24+1, 2^25, 2^31-8 and random ones, inside a sparse file and beyond the end of a 3-record file; whole file listed afterwards")
+    c.sample({"op": "sparse large offset", "cases": len(spl), "largest file": max(int(l.split("|")[2]) for l in spl)})
+
     c.finish(rule="sequences: PRNG(seed) mixes of append/substitute/delete/count (+modify/read for .DIR) on files of 0-5 records with optional torn tail, indices from {first,last,random,count,beyond,negative}, stepped with whole-file comparison; "
-                  "enumerations: index -2..6 x {substitute, delete} x 4 strides, all GetRecords windows on 0..4 records, torn tails at every byte; long windows: n around 4096 / 2^k+1 / count on generated files of 5 000 and 70 000 records (thorough: 300 000, 1 000 000), starts first/last/(count-4096)/random, both directions; refused writes: every (refused op, next op) pair per stride + PRNG(seed) histories with refused ops at random positions; non-trivial = distinct (stride, operation, index class, option mix, result class) or distinct enumerated point",
+                  "enumerations: index -2..6 x {substitute, delete} x 4 strides, all GetRecords windows on 0..4 records, torn tails at every byte; long windows: n around 4096 / 2^k+1 / count on generated files of 5 000 and 70 000 records (thorough: 300 000, 1 000 000), starts first/last/(count-4096)/random, both directions; refused writes: every (refused op, next op) pair per stride + PRNG(seed) histories with refused ops at random positions; sparse: per stride the slots around byte offsets 2^31 / 2^32 / 2^33, index 2^23 / 2^24 / 2^24+1 / 2^25 / 2^31-8 and PRNG(seed) ones x {substitute, delete inside and beyond a small file, append aligned / torn, count, .DIR: read asc/desc, modify stored/stale/beyond}; non-trivial = distinct (stride, operation, index class, option mix, result class) or distinct enumerated point",
              assumptions=["the kernel writes the bytes it is given at the offset it is given (pwrite semantics incl. zero-filled holes are part of the model, observed, not verified)",
                           "locks (flock, range lock) are not part of this property; single-process runs",
                           "the delete tag is read from the build (ptttype.FN_SAFEDEL, a configurable string) and fed to the model",
                           "long windows: the file is generated from (count, seed) by the same rule in the driver and in the check (sha256 stream); contents are compared by a sha256 digest over (index, 128 record bytes) of everything returned, index lists literally; n is kept <= count+1 (make([]T,0,n) with n in the billions is an allocation question, not this property)",
                           "a write the OS refuses is produced with RLIMIT_FSIZE = 0 and SIGXFSZ ignored for the duration of one call (open, flock, range lock, lseek, reads succeed; write(2) returns EFBIG - observed: such a step must report that error unless it refuses by itself first); other causes (ENOSPC, EBADF, EIO) are assumed to take the same path through types.BinaryWrite; a write that is cut short by the OS after some bytes is the torn-tail part, not this one",
-                          "GetRecords with n < 0 panics in make(); modelled as Crash, not generated (callers pass n >= 0)"])
+                          "GetRecords with n < 0 panics in make(); modelled as Crash, not generated (callers pass n >= 0)",
+                          "sparse files: created with ftruncate + a few pwrite calls in the driver's scratch directory; afterwards every data extent reported by lseek(SEEK_DATA/SEEK_HOLE) is read and every stride-sized slot with a non-zero byte is listed (the file system is trusted to report all extents that hold data; holes read as zeros) - so a write landing ANYWHERE in the file (a wrapped offset near the head, a truncated offset) shows; the theorem part is that the sparse model equals the byte-list model (C05_sparse_*), the validation part is that the Go code computes index*stride without wrapping, observed for the four strides at offsets just below/at/above 2^31, 2^32, 2^33 and up to 2^40, indices up to 2^31-8",
+                          "files of 2^31 records and more cannot be addressed by the int32 index types (SortIdx, SortIdxInStore) and are not generated"])
 
 
 if __name__ == "__main__":
